@@ -12,6 +12,7 @@ use vstd::std_specs::iter::IteratorSpec;
 use std::collections::HashMap;
 use std::hash::{BuildHasher, Hash};
 use std::sync::Weak;
+use std::any::TypeId;
 verus! {
 
 // ---------------------------------------------------------------- interface stand-ins (declarations only)
@@ -35,8 +36,14 @@ pub trait SerializationBuffer {
         ensures final(self).log() == old(self).log().push(ev_rem::<C>(*key, *value));
 }
 pub trait KvDatabase: 'static { type SerializationBuffer: SerializationBuffer; }
-/// interface stand-in for the object-safe entry trait (after_commit / as_any_mut: not under contract)
-pub trait WriteEntry<Db: KvDatabase> { fn write_to_db(&self, tx: &mut Db::SerializationBuffer); }
+/// interface stand-in for the object-safe entry trait (after_commit / as_any_mut: not under contract). CONTRACT of the
+/// trait, which every `Box<dyn WriteEntry>` of a batch is used through: write_to_db appends to the buffer one admissible
+/// emission of the entry -- `emits` is defined by each implementor (one operation per staged slot, see below)
+pub trait WriteEntry<Db: KvDatabase> {
+    spec fn emits(&self, out: Seq<Ev>) -> bool;
+    fn write_to_db(&self, tx: &mut Db::SerializationBuffer)
+        ensures exists|out: Seq<Ev>| #[trigger] self.emits(out) && final(tx).log() =~= old(tx).log() + out;
+}
 pub trait WideColumn: 'static { type Key: Hash + Eq + Clone + 'static; }
 pub trait WideColumnValue<C: WideColumn>: 'static {}
 pub trait KeyOfSetColumn: 'static { type Key: Hash + Eq + Clone + 'static; type Element: Hash + Eq + Clone + 'static; }
@@ -244,6 +251,13 @@ pub open spec fn wide_ev<C: WideColumn, V: WideColumnValue<C>>(k: C::Key, v: Opt
     match v { Some(x) => ev_put::<C, V>(k, x), None => ev_del::<C, V>(k) }
 }
 //@ impl crates/storage/src/write_manager/write_behind.rs :: impl<C: WideColumn, V: WideColumnValue<C>, Db: KvDatabase> WriteEntry<Db> for TypedWideColumnWrites<C, V, Db>
+//@ extra
+    /// an admissible emission: exactly one operation per staged key, put or delete as staged, the keys in some order
+    open spec fn emits(&self, out: Seq<Ev>) -> bool {
+        exists|order: Seq<C::Key>| #![trigger order.no_duplicates()] order.no_duplicates()
+            && (forall|k: C::Key| order.contains(k) <==> self.writes@.contains_key(k))
+            && out =~= order.map_values(|k: C::Key| wide_ev::<C, V>(k, self.writes@[k]))
+    }
 //@ member write_to_db
 //@ sig
         ensures
@@ -289,6 +303,8 @@ pub open spec fn wide_ev<C: WideColumn, V: WideColumnValue<C>>(k: C::Key, v: Opt
                     assert(order[w] == k);
                 }
             }
+//@ loop 0 after
+        proof { assert(self.emits(order.map_values(|k: C::Key| wide_ev::<C, V>(k, self.writes@[k])))); }
 //@ end
 
 
@@ -300,6 +316,13 @@ impl<C: KeyOfSetColumn, Db: KvDatabase> TypedKeyOfSetWrites<C, Db> {
     pub open spec fn slot_ev(&self, p: (C::Key, C::Element)) -> Ev { set_ev::<C>(p.0, p.1, self.writes@[p.0]@[p.1]) }
 }
 //@ impl crates/storage/src/write_manager/write_behind.rs :: impl<C: KeyOfSetColumn, Db: KvDatabase> WriteEntry<Db> for TypedKeyOfSetWrites<C, Db>
+//@ extra
+    /// an admissible emission: exactly one operation per staged (key, element) slot, in some order
+    open spec fn emits(&self, out: Seq<Ev>) -> bool {
+        exists|order: Seq<(C::Key, C::Element)>| #![trigger order.no_duplicates()] order.no_duplicates()
+            && (forall|k: C::Key, e: C::Element| order.contains((k, e)) <==> self.net(k, e) is Some)
+            && out =~= order.map_values(|p: (C::Key, C::Element)| self.slot_ev(p))
+    }
 //@ member write_to_db
 //@ sig
         ensures
@@ -418,6 +441,165 @@ impl<C: KeyOfSetColumn, Db: KvDatabase> TypedKeyOfSetWrites<C, Db> {
                     }
                 }
             }
+//@ loop 0 after
+        proof { assert(self.emits(order.map_values(|p: (C::Key, C::Element)| self.slot_ev(p)))); }
+//@ end
+
+// ---------------------------------------------------------------- the batch as a whole: maps of `Box<dyn WriteEntry>`
+// WideColumnWrites / KeyOfSetWrites hold one type-erased entry per (column, value type) resp. per column; a WriteBatch
+// holds one of each. write_to_db of all three is under contract against the TRAIT contract of WriteEntry (a caller is
+// checked against the callee's contract: whichever typed map sits behind the `dyn`, its emission is appended once).
+/// std::any::TypeId is opaque
+#[verifier::external_type_specification]
+#[verifier::external_body]
+pub struct ExTypeId(std::any::TypeId);
+
+//@ struct crates/storage/src/write_manager/write_behind.rs :: WideColumnWritesID
+#[derive(Clone, Copy, PartialEq, Eq, Hash)]
+//@ end
+//@ struct crates/storage/src/write_manager/write_behind.rs :: WideColumnWrites
+#[verifier::reject_recursive_types(Db)]
+//@ end
+//@ struct crates/storage/src/write_manager/write_behind.rs :: KeyOfSetWrites
+#[verifier::reject_recursive_types(Db)]
+//@ end
+//@ struct crates/storage/src/write_manager/write_behind.rs :: Epoch
+//@ struct crates/storage/src/write_manager/write_behind.rs :: WriteBatch
+#[verifier::reject_recursive_types(Db)]
+//@ end
+
+/// concatenation of the emissions, in the order the entries were visited
+pub open spec fn concat_all(outs: Seq<Seq<Ev>>) -> Seq<Ev>
+    decreases outs.len()
+{
+    if outs.len() == 0 { Seq::empty() } else { concat_all(outs.drop_last()) + outs.last() }
+}
+/// every entry of the map emitted exactly once: `ids` lists the map's keys without repetition, `outs[i]` is an
+/// admissible emission of the entry stored under `ids[i]`, and `out` is their concatenation
+pub open spec fn each_entry_once<Id, Db: KvDatabase>(m: Map<Id, Box<dyn WriteEntry<Db>>>, out: Seq<Ev>) -> bool {
+    exists|ids: Seq<Id>, outs: Seq<Seq<Ev>>| #![trigger ids.no_duplicates(), concat_all(outs)]
+        ids.no_duplicates() && (forall|k: Id| ids.contains(k) <==> m.contains_key(k)) && outs.len() == ids.len()
+        && (forall|i: int| 0 <= i < ids.len() ==> (#[trigger] m[ids[i]]).emits(outs[i]))
+        && out =~= concat_all(outs)
+}
+
+// std model (trusted): HashMap::values() is iter().map(|(_, v)| v) -- it yields the value of every key exactly once.
+// vstd only states the SET of yielded values and their number (which does not exclude yielding one of two equal values
+// twice); the axiom names the key sequence behind the yielded values. It is stated on the iterator object, so it
+// cannot be instantiated on a hand-made sequence.
+pub open spec fn values_match<K, V>(rem: Seq<&V>, m: Map<K, V>) -> bool {
+    rem.unref().to_set() == m.values() && rem.len() == m.dom().len()
+}
+pub open spec fn keyed_by<K, V>(ks: Seq<K>, rem: Seq<&V>, m: Map<K, V>) -> bool {
+    ks.no_duplicates() && ks.len() == rem.len() && (forall|k: K| ks.contains(k) <==> m.contains_key(k))
+    && (forall|i: int| 0 <= i < ks.len() ==> m[#[trigger] ks[i]] == *rem[i])
+}
+pub uninterp spec fn keys_of<'a, K, V>(it: std::collections::hash_map::Values<'a, K, V>) -> Seq<K>;
+pub proof fn axiom_values<'a, K, V>(it: std::collections::hash_map::Values<'a, K, V>, m: Map<K, V>)
+    requires values_match(it.remaining(), m)
+    ensures keyed_by(keys_of(it), it.remaining(), m)
+{ admit(); }
+pub proof fn axiom_id_types()
+    ensures obeys_key_model::<WideColumnWritesID>(), obeys_key_model::<std::any::TypeId>(), builds_valid_hashers::<FxBuildHasher>()
+{ admit(); }
+
+//@ impl crates/storage/src/write_manager/write_behind.rs :: impl<Db: KvDatabase> WideColumnWrites<Db>
+//@ member write_to_db
+//@ sig
+        ensures exists|out: Seq<Ev>| #[trigger] each_entry_once(self.writes@, out) && final(tx).log() =~= old(tx).log() + out
+//@ head
+        proof { axiom_id_types(); }
+        broadcast use group_hash_axioms;
+        let ghost mut outs: Seq<Seq<Ev>> = Seq::empty();
+        let ghost mut ids: Seq<WideColumnWritesID> = Seq::empty();
+//@ loop 0 iter __it
+//@ loop 0 inv
+            invariant
+                values_match(__it.snapshot@.remaining(), self.writes@),
+                outs.len() == __it.index@, ids.len() == __it.index@,
+                ids =~= keys_of(__it.snapshot@).take(__it.index@ as int),
+                forall|i: int| 0 <= i < outs.len() ==> (#[trigger] self.writes@[ids[i]]).emits(outs[i]),
+                tx.log() =~= old(tx).log() + concat_all(outs),
+                __it.index@ == __it.snapshot@.remaining().len() ==> ids.no_duplicates()
+                    && (forall|k: WideColumnWritesID| ids.contains(k) <==> self.writes@.contains_key(k)),
+//@ loop 0 head
+            let ghost before = tx.log();
+            let ghost outs0 = outs;
+            let ghost ids0 = ids;
+//@ loop 0 tail
+            proof {
+                axiom_values(__it.snapshot@, self.writes@);
+                ids = ids0.push(keys_of(__it.snapshot@)[__it.index@ as int]);
+            }
+            proof {
+                let out = choose|out: Seq<Ev>| #[trigger] write_entry.emits(out) && tx.log() =~= before + out;
+                outs = outs0.push(out);
+            }
+            proof {
+                assert(outs.drop_last() =~= outs0);
+                let ks = keys_of(__it.snapshot@);
+                let i = __it.index@ as int;
+                assert(ks.take(i + 1) =~= ks.take(i).push(ks[i]));
+                assert(self.writes@[ks[i]] == *__it.snapshot@.remaining()[i]);
+                assert(i + 1 == ks.len() ==> ks.take(i + 1) =~= ks);
+            }
+//@ loop 0 after
+        proof { assert(each_entry_once(self.writes@, concat_all(outs))); }
+//@ end
+
+//@ impl crates/storage/src/write_manager/write_behind.rs :: impl<Db: KvDatabase> KeyOfSetWrites<Db>
+//@ member write_to_db
+//@ sig
+        ensures exists|out: Seq<Ev>| #[trigger] each_entry_once(self.writes@, out) && final(tx).log() =~= old(tx).log() + out
+//@ head
+        proof { axiom_id_types(); }
+        broadcast use group_hash_axioms;
+        let ghost mut outs: Seq<Seq<Ev>> = Seq::empty();
+        let ghost mut ids: Seq<std::any::TypeId> = Seq::empty();
+//@ loop 0 iter __it
+//@ loop 0 inv
+            invariant
+                values_match(__it.snapshot@.remaining(), self.writes@),
+                outs.len() == __it.index@, ids.len() == __it.index@,
+                ids =~= keys_of(__it.snapshot@).take(__it.index@ as int),
+                forall|i: int| 0 <= i < outs.len() ==> (#[trigger] self.writes@[ids[i]]).emits(outs[i]),
+                tx.log() =~= old(tx).log() + concat_all(outs),
+                __it.index@ == __it.snapshot@.remaining().len() ==> ids.no_duplicates()
+                    && (forall|k: std::any::TypeId| ids.contains(k) <==> self.writes@.contains_key(k)),
+//@ loop 0 head
+            let ghost before = tx.log();
+            let ghost outs0 = outs;
+            let ghost ids0 = ids;
+//@ loop 0 tail
+            proof {
+                axiom_values(__it.snapshot@, self.writes@);
+                ids = ids0.push(keys_of(__it.snapshot@)[__it.index@ as int]);
+            }
+            proof {
+                let out = choose|out: Seq<Ev>| #[trigger] write_entry.emits(out) && tx.log() =~= before + out;
+                outs = outs0.push(out);
+            }
+            proof {
+                assert(outs.drop_last() =~= outs0);
+                let ks = keys_of(__it.snapshot@);
+                let i = __it.index@ as int;
+                assert(ks.take(i + 1) =~= ks.take(i).push(ks[i]));
+                assert(self.writes@[ks[i]] == *__it.snapshot@.remaining()[i]);
+                assert(i + 1 == ks.len() ==> ks.take(i + 1) =~= ks);
+            }
+//@ loop 0 after
+        proof { assert(each_entry_once(self.writes@, concat_all(outs))); }
+//@ end
+
+/// what ONE logical batch hands to its serialization buffer: every wide-column entry once, then every key-of-set entry
+/// once -- nothing else, nothing twice (the two families live in different column kinds, so their relative order is
+/// immaterial for the store; the order is nevertheless pinned as in the code)
+//@ impl crates/storage/src/write_manager/write_behind.rs :: impl<Db: KvDatabase> WriteBatch<Db>
+//@ member write_to_db
+//@ sig
+        ensures exists|a: Seq<Ev>, b: Seq<Ev>| #![trigger each_entry_once(self.wide_column_writes.writes@, a), each_entry_once(self.key_of_set_writes.writes@, b)]
+            each_entry_once(self.wide_column_writes.writes@, a) && each_entry_once(self.key_of_set_writes.writes@, b)
+            && final(tx).log() =~= old(tx).log() + a + b
 //@ end
 
 // ---------------------------------------------------------------- vacuity guards (must FAIL)
@@ -429,6 +611,24 @@ fn canary_entry_model(m: &mut HashMap<u64, u64>, k: u64)
         Entry::Occupied(mut o) => { *o.get_mut() = 1; }
         Entry::Vacant(v) => { v.insert(2); }
     }
+}
+
+/// if the values() axiom or the trait contract of WriteEntry were contradictory these would verify
+fn canary_values_axiom(m: &HashMap<u64, u64, FxBuildHasher>)
+{
+    proof { axiom_key_types::<u64>(); }
+    broadcast use group_hash_axioms;
+    for v in __it: m.values()
+        invariant values_match(__it.snapshot@.remaining(), m@)
+    {
+        proof { axiom_values(__it.snapshot@, m@); }
+        assert(false);
+    }
+}
+fn canary_batch_contract<Db: KvDatabase>(b: &WriteBatch<Db>, tx: &mut Db::SerializationBuffer)
+    ensures false
+{
+    b.write_to_db(tx);
 }
 
 } // verus!
